@@ -403,8 +403,11 @@ def main(root, argv):
                         o["suite"] = suite
                         o["build"] = build
                         oracle_fail.append(o)
-                    obligations.append(("correspondence suite %s (%s): model = implementation on %d cases" % (suite, build, st.get("evaluations", 0)),
-                                        st.get("disagreements", 0) == 0))
+                    unk = [d for d in cached["disagreements"] if not known_match(known, pid, d)]
+                    obligations.append(("correspondence suite %s (%s): model = implementation on %d cases%s" % (
+                        suite, build, st.get("evaluations", 0),
+                        " (outside the %d cases of the recorded known finding)" % (len(cached["disagreements"]) - len(unk)) if len(unk) != len(cached["disagreements"]) else ""),
+                        len(unk) == 0))
                     continue
                 runner = P.ENGINE_RUNNERS.get(engine, run_e1_suite)
                 st = runner(root, bins[key], suite, seed, tier, rundir, build)
@@ -434,8 +437,11 @@ def main(root, argv):
                     o["suite"] = suite
                     o["build"] = build
                     oracle_fail.append(o)
-                obligations.append(("correspondence suite %s (%s): model = implementation on %d cases" % (suite, build, st.get("evaluations", 0)),
-                                    nd == 0 and not errs))
+                unk = [d for d in mine if not known_match(known, pid, d)]
+                obligations.append(("correspondence suite %s (%s): model = implementation on %d cases%s" % (
+                    suite, build, st.get("evaluations", 0),
+                    " (outside the %d cases of the recorded known finding)" % (len(mine) - len(unk)) if len(unk) != len(mine) else ""),
+                    len(unk) == 0 and not errs))
     else:
         corr_errors.append("correspondence modules do not build")
 
